@@ -8,6 +8,7 @@ COMMON = r'''
 #[derive(Debug, Clone, PartialEq)] struct Leaf { n: i32, s: String }
 #[derive(Debug, Clone, PartialEq)] enum Kind { Unit, Other, Tup(i32, String), Rec { a: i32, b: String } }
 #[derive(Debug, Clone, PartialEq)] struct NC(String);     // not Copy
+#[derive(Debug, Clone)] struct NoEq(i32);                  // neither PartialEq nor PartialOrd
 '''
 
 # target types: (rust type, value expression, [(form name, matching pattern, non-matching pattern)])
